@@ -117,6 +117,11 @@ pub trait Property: Send + Sync + 'static {
     fn regressions(&self) -> Vec<Self::Case> {
         Vec::new()
     }
+    /// Whether a generated case should be executed by the coverage-guided driver (cases that
+    /// sleep on real sockets are left to the proptest tier).
+    fn fuzzable(&self, _case: &Self::Case) -> bool {
+        true
+    }
     /// Maximum shrink iterations.
     fn max_shrink_iters(&self) -> u32 {
         400
